@@ -21,7 +21,7 @@ func checkC09(c *Ctx) error {
 	r := c.R
 	r.Rule = "pairs (P, P') where P is a generated core-language program (C01 generator; emphasis on 8/16-bit arithmetic near the wrap point, integer division, comparisons feeding if, constants as indices and match patterns) and P' applies at random sites the rewrites literal->call, subexpression->local, let->const, wrap-in-if-true; both compiled and run natively (thorough: also wasm for the wasm-compatible profile); accept/reject and output must agree; non-trivial = a distinct pair with >=1 rewrite applied, both accepted, both ran and agreed on >=1 line"
 	r.Assumptions = []string{"fixed-array index literals are not rewritten (documented rule that they be compile-time constants); a variant rejected only with T0028 would be excused", "rewrites never move expressions that can panic or have side effects"}
-	n := c.N(45, 1200)
+	n := c.N(30, 1200)
 	gates := gatedFeatures(c)
 	core.ParDo(n, 5, func(i int) {
 		rng := r.Rng(i)
